@@ -5,7 +5,7 @@ CLAIM = {
  'text': ('Lean 4 theorems about a model of LASRead.py (line generator, section dispatch, line_to_sect_line with its two '
           'field regexes as scanners, string_to_value typing, unwrapped and wrapped array section, null substitution) and '
           'a layout-parametric printer: parse_print (for every well-formed content and EVERY layout the reader returns '
-          'the content), layout_independent, wrap_unwrap_equal, bad_value_becomes_null, header_line_parse_print, '
+          'the content), layout_independent, wrap_unwrap_equal, bad_value_becomes_null, mask_exact, header_line_parse_print, '
           'data_line_tokens, unwrap_frames. The model is tied to the source on every run by a differential run against '
           'the real LASRead on texts printed by the proved Lean printer under random layouts, on mutated (malformed) '
           'texts and on the unit functions; the property oracle compares the real reader with the generated content.'),
@@ -84,7 +84,7 @@ def impl_parse(LR, text):
     return {'sections': sections, 'array': arr}, las
 
 
-def model_struct(reply):
+def model_struct(reply, with_mask=False):
     """JSON reply of the driver -> the same canonical structure (exact decimals -> doubles via float())."""
     from gen import las as G
     j = json.loads(reply)
@@ -106,6 +106,8 @@ def model_struct(reply):
     if a is not None:
         arr = {'names': [[v(n[0]), v(n[1])] for n in a['names']],
                'frames': [[_fhex(G.dec_to_float(*a['null'])) if c is None else _fhex(G.dec_to_float(c[0], c[1])) for c in row] for row in a['frames']]}
+    if arr is not None and with_mask:
+        arr['mask'] = a['mask']
     return {'sections': secs, 'array': arr}
 
 
@@ -156,6 +158,25 @@ def oracle(ctx, LR, content, text, case, res=None):
             if list(mask) != list(exp):
                 ctx.fail(case, f'channel {ci}: mask {[bool(x) for x in mask]} but values {[float(x) for x in data]} (NULL={null})')
                 return False
+    # public element access: masked exactly at NULL, never on the X axis; genOutpPoints gives every (X, value) pair
+    if nfr:
+        raw = [[float(np.ma.getdata(ch.array)[f][0]) for ch in fa.channels] for f in range(nfr)]
+        for ci, ch in enumerate(fa.channels):
+            for f in range(nfr):
+                v = ch.array[f][0]
+                is_masked = v is np.ma.masked
+                if is_masked != (ci > 0 and raw[f][ci] == null):
+                    ctx.fail(case, f'frame {f} channel {ci}: element access gives {"masked" if is_masked else float(v)!r} for the value {raw[f][ci]!r} (NULL={null})')
+                    return False
+                if not is_masked and float(v) != raw[f][ci]:
+                    ctx.fail(case, f'frame {f} channel {ci}: element access {float(v)!r} != stored {raw[f][ci]!r}'); return False
+        if decl is not None or G.declared_null_line(content) is None:      # null_value is a number
+            for ci, h in enumerate(G.curves_of(content)):
+                ctx.count('genOutpPoints_checked')
+                pts = list(las.genOutpPoints(h['mnem']))
+                wantp = [(raw[f][0], raw[f][ci]) for f in range(nfr)]
+                if pts != wantp:
+                    ctx.fail(case, f'genOutpPoints({h["mnem"]!r}) = {pts[:4]}.., expected {wantp[:4]}..'); return False
     # lookups by mnemonic give the first line with that mnemonic; channels by name
     for s in [{'typ': 'V', 'kind': 'H', 'lines': content['v']}] + content['sects']:
         if s['kind'] != 'H': continue
@@ -269,6 +290,7 @@ def _case(content, layout):
 
 
 def run(ctx):
+    import numpy as np
     from gen import las as G
     LR = _impl()
     rng = ctx.rng
@@ -305,6 +327,12 @@ def run(ctx):
         text = texts[i]
         res = impl_parse(LR, text)
         ctx.corr('lasparse', _case(c, l), res[0], model_struct(mrep))
+        if res[1] is not None and res[1].frame_array is not None:
+            chans = res[1].frame_array.channels
+            n = len(chans[0].array) if chans else 0
+            ms = [np.ma.getmaskarray(ch.array)[:, 0] for ch in chans]
+            ctx.corr('mask', _case(c, l), [[int(m[f]) for m in ms] for f in range(n)],
+                     (json.loads(mrep).get('ok', {}).get('array') or {}).get('mask'))
         good = oracle(ctx, LR, c, text, _case(c, l), res)
         if good:
             # layout independence and wrap/unwrap equality on the implementation: identical results within a group
@@ -322,6 +350,16 @@ def run(ctx):
                     h['value'][0] == 't' and (':' in h['value'][1] or '.' in h['value'][1]) for s in c['sects'] if s['kind'] == 'H' for h in s['lines']):
                 ctx.nontriv(text)
         ctx.count('wrapped_texts' if G.wrap_of(c) else 'unwrapped_texts')
+        dn = G.declared_null(c); dn = G.NULL_DEFAULT if dn is None else dn
+        for row in c['frames']:
+            for cell in row[1:]:
+                if cell[0] == 'n':
+                    v = G.dec_to_float(cell[1], cell[2])
+                    if v != dn and abs(v - dn) <= 1e-8 + 1e-5 * abs(dn): ctx.count('cells_close_to_null_not_equal')
+                    elif v == dn: ctx.count('cells_equal_to_null')
+        for ci, h in enumerate(G.curves_of(c)):
+            if h['mnem'].upper() in ('TIME', 'DATE') or h['unit'].upper() in ('HHMMSS', 'D'):
+                ctx.count('special_word_curve_x_axis' if ci == 0 else 'special_word_curve_other')
     ctx.sample({'op': 'content', 'text_head': texts[ok[0]][:300], 'layouts_per_content': n_layouts})
     ctx.sample({'op': 'content', 'text_head': texts[ok[len(ok) // 2]][:300]})
 
